@@ -187,7 +187,17 @@ class LockClient(pathflow.Client):
         try:
             v, p, pol = pred_of(cond, env, func)
         except Unrecognised as e:
-            raise facts.Broken('%s: %s' % (func.name, e))
+            # a condition over something else than the lock word (a spin budget, a flag of the caller) cannot constrain the version: both
+            # outcomes are explored and nothing is learnt.  A condition that does mention a version-derived value in an idiom the
+            # abstraction does not know stays analysis-broken (guessing there could raise a false alarm).
+            def _ver(m):
+                try:
+                    return val_of(m, env, func)[0] in ('op', 'leasever', 'lease', 'callret')
+                except Exception:
+                    return True
+            if any(_ver(m) for m in walk(cond) if 'k' in m and m['k'] in ('DeclRefExpr', 'MemberExpr', 'CallExpr', 'CXXMemberCallExpr', 'CXXOperatorCallExpr')):
+                raise facts.Broken('%s: %s' % (func.name, e))
+            return st
         want = (truth == pol)
         if p == 'true' and v[0] == 'const':
             return st if bool(v[1]) == want else None
